@@ -55,8 +55,11 @@ CLAIMED = {
              "older entry exactly as stored with the cursor at its end and captures the line being typed when and only when "
              "recall starts from it; moving down shows the next newer entry and, past the newest, restores the captured text "
              "and cursor exactly; both directions stop at the ends without changing anything; first/last-entry commands land "
-             "where enough ups/downs would. PARTIAL: Up/Down inside multi-line text (line motion first) and whole walks are "
-             "decided by the reference-walk oracle and the correspondence.",
+             "where enough ups/downs would; WHOLE WALKS (C07_recall_walk): from the line being typed, any sequence of previous / "
+             "next steps ends where an index walked over the stored list ends -- on an entry exactly that entry with the cursor "
+             "at its end, back past the newest the typed line and its cursor restored exactly -- with the list unchanged and no "
+             "panic on the way. PARTIAL: Up/Down inside multi-line text (line motion first) and edits made to a recalled entry "
+             "are decided by the reference-walk oracle and the correspondence.",
         note=TTY_NOTE + "Default history back end.",
         technique="Coq proof: 'keeps the history field' calculus over the editor monad with fuel induction for every loop; symbolic execution of the recall steps; extracted-model differential check through a pty + reference-walk oracle"),
     "C08": dict(
